@@ -99,11 +99,9 @@ m("C05", "define-restore-unconditional", C,
             yield from self._leave_assignment(assignment.names)''')
 m("C05", "global-write-inverted", C,
   '''            if not node.local:
-                assignment += template(
-                    "rcontext[KEY] = __value", KEY=ast.Constant(''',
+                # (the value of this name''',
   '''            if node.local:
-                assignment += template(
-                    "rcontext[KEY] = __value", KEY=ast.Constant(''')
+                # (the value of this name''')
 m("C05", "backup-marker-none", C,
   '''                "BACKUP = get(KEY, __marker)",''',
   '''                "BACKUP = get(KEY, None)",''')
